@@ -333,6 +333,10 @@ def r3(ctx):
         smap = c05.slot_map(notes)
         ctx.check(st is not None and st.fmt == packed.struct.fmt, R, f"{lab}:same-struct", m, dnode, f"encoder and decoder use the same record layout ({packed.struct.fmt})", st.fmt if st else "?")
         opaque_fields = {f for (mo, f) in OPAQUE_OK if mo == mod}
+        overlap = [p for p in eprob if "overlapping bit fields" in p]
+        if overlap:
+            ctx.violation(R, f"{lab}:fields-disjoint", m, m.get_class(ecls).methods["encode"], "the encoder adds bit fields that do not overlap (each bit of the record belongs to one attribute)", overlap[0])
+            continue
         for p in dprob + eprob:
             if not any(f in p for f in opaque_fields) and not (mod.endswith("ac_ability") and ("ac_name" in p or "group_display" in p or "encoded_ac_name" in p)) and "duration" not in p and "divmod" not in p:
                 raise AnalysisError(f"{m.relpath}: {ecls}/{dcls} left the bit domain: {p}")
